@@ -555,6 +555,17 @@ def oracle_late(ctx):
     # a late declaration under a tentative UTF-16 (likely_encoding): the standard keeps UTF-16
     text = (pad + b"<meta charset=koi8-r></head><body>x</body>").decode("ascii")
     run_late(ctx, text.encode("utf-16le"), {"likely": "utf-16le"}, "koi8-r", "late-under-utf16")
+    # tentative UTF-16 (both flavours, via likely_encoding / default_encoding), bytes really UTF-16 encoded, and a
+    # <meta> declaring UTF-16 (matching / other flavour / generic labels) that the byte-level prescan cannot see -
+    # inside and after the first 1024 bytes.  Property clause: a declared UTF-16 in <meta> means UTF-8.
+    for cur in ("utf-16le", "utf-16be"):
+        for argname in ("likely", "default"):
+            for label in ("utf-16", "utf-16le", "utf-16be", "unicode", "UTF-16BE ", "koi8-r", "bogus"):
+                for npad in (3, 600):
+                    for fi, form in enumerate(forms[:2]):
+                        doc = (b"<!doctype html><html><head><title>t</title><!-- " + b"p" * npad + b" -->" +
+                               form(label.encode("ascii")) + b"</head><body>caf\xc3\xa9 x</body>").decode("utf-8")
+                        run_late(ctx, doc.encode(cur), {argname: cur}, label, "late-utf16-doc-form%d" % fi)
 
 
 def run_late(ctx, data, args, label, src):
@@ -575,21 +586,54 @@ def run_late(ctx, data, args, label, src):
                      {"kind": "late", "data": data.decode("latin-1"), "args": full, "label": label, "initial": cur, "final": final})
         return
     exp = expected_late(cur, label)
+    lit = literal_late(cur, label)
+    inp = {"kind": "late", "data": data.decode("latin-1"), "args": full, "label": label, "initial": (cur, conf),
+           "final": (final, fconf), "expected": exp, "source": src}
     if (final, fconf) != exp:
         import webencodings
         e = webencodings.lookup(label)
-        if cur in ("utf-16le", "utf-16be"):
+        # the two recorded defects are kept narrow: the result must be exactly what the recorded defect predicts
+        # (changeEncoding applied literally: no "a UTF-16 document keeps its encoding", no x-user-defined mapping)
+        if cur in ("utf-16le", "utf-16be") and (final, fconf) == lit:
             cls = "late-meta:changes-a-tentative-utf16"
-        elif e is not None and e.name in ("utf-16le", "utf-16be"):
+        elif e is not None and e.name in ("utf-16le", "utf-16be") and (final, fconf) == (cur, conf):
             cls = "late-meta:utf16-ignored"
-        elif e is not None and e.name == "x-user-defined":
+        elif e is not None and e.name == "x-user-defined" and (final, fconf) == lit:
             cls = "late-meta:x-user-defined-not-mapped"
         else:
             cls = "late-meta:final-encoding-differs"
         ctx.fail(cls, "after a <meta> declaration met during tree construction the reported encoding differs from the "
-                 "standard's 'changing the encoding while parsing'",
-                 {"kind": "late", "data": data.decode("latin-1"), "args": full, "label": label, "initial": (cur, conf),
-                  "final": (final, fconf), "expected": exp})
+                 "standard's 'changing the encoding while parsing'", inp)
+    # the property's own clause "a declared UTF-16 in <meta> means UTF-8": a declaration of UTF-16 that is acted upon
+    # must never leave a UTF-16 encoding reported.  (Under a tentative UTF-16 this clause and the standard's "keep
+    # UTF-16" disagree - that disagreement IS the recorded finding late-meta:changes-a-tentative-utf16; the clause as
+    # stated is what the tree implements and what is checked here.  Revisit when that finding is repaired.)
+    import webencodings
+    e = webencodings.lookup(label)
+    if e is not None and e.name in ("utf-16le", "utf-16be") and fconf == "certain" and final in ("utf-16le", "utf-16be"):
+        ctx.fail("late-meta:declared-utf16-not-taken-as-utf8", "a <meta> declaring UTF-16 made a UTF-16 encoding certain "
+                 "instead of being taken as UTF-8", dict(inp, expected=lit))
+    # documentEncoding reports the encoding finally used: the tree is the tree of the bytes decoded with it
+    try:
+        text = decode(data, final)
+        ref = parse_text(text)
+    except Exception:
+        return
+    if tree != ref:
+        ctx.fail(classify_tree(data, full, final, data, text, tree), "the tree differs from the tree of the bytes decoded "
+                 "with the reported encoding (late <meta>)", {"kind": "tree", "data": data.decode("latin-1"), "args": full,
+                                                              "reported": final, "source": src})
+
+
+def literal_late(cur, label):
+    """what html5lib's changeEncoding does read literally (the property's wording): unknown label - nothing; a declared
+    UTF-16 means UTF-8; the current encoding - just certain; otherwise restart with the declared encoding"""
+    import webencodings
+    e = webencodings.lookup(label)
+    if e is None:
+        return cur, "tentative"
+    new = "utf-8" if e.name in ("utf-16le", "utf-16be") else e.name
+    return new, "certain"
 
 
 TREE_DOCS = [b"<p>caf\xe9</p>", b"<p>\xc1\xc2\xc3</p>", b"<title>\x93x\x94</title>", b"a\xe2\x82\xacb", b"a\xe2\x82", b"\xe2\x82",
